@@ -3509,7 +3509,9 @@ orc_compiler_mmx_register_rules (OrcTarget *target)
   rule_set = orc_rule_set_new (orc_opcode_set_get("sys"), target,
       ORC_TARGET_MMX_SSE4_2);
 
+#ifndef MMX
   REG(cmpgtsq);
+#endif
 
   /* SSE 4a -- no rules */
 }
